@@ -23,6 +23,7 @@ type PropConfig struct {
 	ID        string   `json:"id"`
 	Packages  []string `json:"packages"`
 	Functions []string `json:"functions"`      // full names or suffixes; "pkg:*" = every function of that package
+	SkipHas   []string `json:"skip_name_contains"` // obligations outside the claim for specific functions (listed as such)
 	Exclude   []string `json:"exclude"`        // functions not verified (suffix match)
 	Overflow  bool     `json:"overflow"`       // generate overflow obligations
 	Guards    bool     `json:"guards"`         // lockset obligations
@@ -294,6 +295,16 @@ func cmdCheck(args []string) {
 			continue
 		}
 		for _, ob := range r.Obligations {
+			skipped := false
+			for _, x := range cfg.SkipHas {
+				if !ob.Cover && !ob.Canary && strings.Contains(ob.Name, x) {
+					skipped = true
+				}
+			}
+			if skipped {
+				assumptions["obligations matching "+fmt.Sprint(cfg.SkipHas)+" are outside this property's claim and are not counted"] = true
+				continue
+			}
 			if !kindOK(ob.Kind) || (!ob.Cover && !ob.Canary && !nameOK(ob.Name)) {
 				assumptions["obligations of kind "+ob.Kind+" outside this property's claim are not counted here (they belong to other properties or are assumed)"] = true
 				continue
